@@ -35,6 +35,15 @@ Lemma aggregate_Qc (tr : trajQc) :
        /\ nth t (aggregate_power QcO QcA tr) q0 = aggregate_power_spec QcO tr t.
 Proof. intro H. qc_inst (aggregate_F Qc QcO Qcinv). Qed.
 
+Lemma aggregate_relabel_Qc (tr tr' : trajQc) :
+  Forall (fun row => length row = t_width tr) (t_rates tr) ->
+  Forall (fun row => length row = t_width tr') (t_rates tr') ->
+  t_width tr = t_width tr' ->
+  Permutation (combine (t_volts tr) (t_rates tr)) (combine (t_volts tr') (t_rates tr')) ->
+  length (t_volts tr) = length (t_rates tr) -> length (t_volts tr') = length (t_rates tr') ->
+  aggregate_current QcO tr = aggregate_current QcO tr' /\ aggregate_power QcO QcA tr = aggregate_power QcO QcA tr'.
+Proof. intros. qc_inst (aggregate_relabel_F Qc QcO Qcinv). Qed.
+
 Lemma constraint_currents_Qc (tr : trajQc) flag ids :
   wf tr -> NoDup (t_cindex tr) ->
   map fst (constraint_currents QcO QcA tr flag ids) = filter (requested ids) (t_cindex tr)
